@@ -9,33 +9,28 @@ use crate::verif_models::fs as gfs;
 use crate::verif_models::fmtm;
 use bitcoin::hashes::{sha256d, Hash};
 
-// scripts hold one concrete byte: [measured] CBMC does not decide `ptr == end` for the dangling pointer of an
-// empty Vec, iterates arr_to_hex to the unwind bound over garbage bytes and formats each of them
+// Vectors are built with vec![..] literals, never by push loops: [measured] after Vec::push (realloc) CBMC does not
+// decide the slice iterator's `ptr == end`, iterates `for tx in &block.txs` to the unwind bound over garbage
+// elements and explodes. Scripts hold one concrete byte for the same reason (empty Vec = dangling pointer).
+fn mk_in(i: u32) -> TxInput {
+    TxInput { outpoint: TxOutpoint::new(sha256d::Hash::all_zeros(), i), script_len: VarUint::from(1u8), script_sig: vec![0xab], seq_no: 0 }
+}
+fn mk_o(o: u64, with_addr: bool) -> EvaluatedTxOut {
+    let addr = if with_addr { Some(String::from("a")) } else { None };
+    EvaluatedTxOut { script: EvaluatedScript::new(addr, ScriptPattern::NotRecognised), out: TxOutput { value: o, script_len: VarUint::from(1u8), script_pubkey: vec![0xcd] } }
+}
+fn mk_t(t: u8, n_in: u8, n_out: u8, with_addr: bool) -> Hashed<EvaluatedTx> {
+    let inputs = match n_in { 0 => Vec::new(), 1 => vec![mk_in(0)], _ => vec![mk_in(0), mk_in(1)] };
+    let outputs = match n_out { 0 => Vec::new(), 1 => vec![mk_o(0, with_addr)], _ => vec![mk_o(0, with_addr), mk_o(1, with_addr)] };
+    let mut h = [0u8; 32];
+    h[0] = t + 1;
+    Hashed { hash: sha256d::Hash::from_byte_array(h), value: EvaluatedTx { version: 1, in_count: VarUint::from(n_in), inputs, out_count: VarUint::from(n_out), outputs, locktime: 0 } }
+}
+/// n_tx, n_in, n_out in 0..=2
 pub fn mk_block(n_tx: u8, n_in: u8, n_out: u8, with_addr: bool) -> Block {
     let z = sha256d::Hash::all_zeros();
     let header = BlockHeader { version: 1, prev_hash: z, merkle_root: z, timestamp: 0, bits: 0, nonce: 0 };
-    let mut txs = Vec::new();
-    let mut t = 0;
-    while t < n_tx {
-        let mut inputs = Vec::new();
-        let mut i = 0;
-        while i < n_in {
-            inputs.push(TxInput { outpoint: TxOutpoint::new(z, i as u32), script_len: VarUint::from(1u8), script_sig: vec![0xab], seq_no: 0 });
-            i += 1;
-        }
-        let mut outputs = Vec::new();
-        let mut o = 0;
-        while o < n_out {
-            let addr = if with_addr { Some(String::from("a")) } else { None };
-            outputs.push(EvaluatedTxOut { script: EvaluatedScript::new(addr, ScriptPattern::NotRecognised), out: TxOutput { value: o as u64, script_len: VarUint::from(1u8), script_pubkey: vec![0xcd] } });
-            o += 1;
-        }
-        let mut h = [0u8; 32];
-        h[0] = t + 1;
-        let tx = EvaluatedTx { version: 1, in_count: VarUint::from(n_in), inputs, out_count: VarUint::from(n_out), outputs, locktime: 0 };
-        txs.push(Hashed { hash: sha256d::Hash::from_byte_array(h), value: tx });
-        t += 1;
-    }
+    let txs = match n_tx { 0 => Vec::new(), 1 => vec![mk_t(0, n_in, n_out, with_addr)], _ => vec![mk_t(0, n_in, n_out, with_addr), mk_t(1, n_in, n_out, with_addr)] };
     Block { size: 0, header: Hashed { hash: z, value: header }, aux_pow_extension: None, tx_count: VarUint::from(n_tx), txs }
 }
 
@@ -58,6 +53,8 @@ macro_rules! flush_before_rename {
     ($name:ident, $blocks:expr, $k:expr, $fails_in_block:expr) => {
         #[kani::proof]
         #[kani::stub(std::io::Error::is_interrupted, crate::verif_models::fs::stub_not_interrupted)]
+        #[kani::stub(<std::io::Error as std::error::Error>::source, crate::verif_models::fs::stub_no_source)]
+        #[kani::stub(<std::io::Error as std::error::Error>::cause, crate::verif_models::fs::stub_no_cause)]
         #[kani::stub(crate::common::utils::arr_to_hex, stub_hex)]
 #[kani::unwind(5)] // small on purpose: io::Error/Box<dyn Error> drop glue and Error::cause recurse through vtables; CBMC unrolls that recursion to the bound (exponential)
         fn $name() {
@@ -88,18 +85,16 @@ macro_rules! flush_before_rename {
                                 && gfs::ACCEPTED.v[5] == gfs::SNAP_AT_FIRST_RENAME.v[5] && gfs::ACCEPTED.v[6] == gfs::SNAP_AT_FIRST_RENAME.v[6], "C10:no_bytes_written_after_the_first_rename");
                             assert!(gfs::ACCEPTED.v[3] == 2 * $blocks && gfs::ACCEPTED.v[4] == 2 * $blocks && gfs::ACCEPTED.v[5] == 2 * $blocks && gfs::ACCEPTED.v[6] == 2 * $blocks, "C10:final_file_is_complete");
                         }
-                        kani::cover!($k >= gfs::NSCHED, "fault-free run completes");
+                        assert!($k >= gfs::NSCHED, "C10:scheduled_write_failure_is_reported");
                     }
                     Err(e) => {
                         core::mem::forget(e);
                         assert!(unsafe { gfs::WRITE_FAILED.v }, "C10:completion_fails_only_on_a_write_failure");
                         assert!(unsafe { gfs::RENAMES.v } == 0, "C10:write_failure_leaves_no_final_named_file");
-                        kani::cover!($k < gfs::NSCHED, "write failed during completion (final flush)");
                     }
                 }
-            } else {
-                kani::cover!(unsafe { gfs::WRITE_FAILED.v }, "write failed while processing a block");
             }
+            kani::cover!(true, "schedule evaluated to the end");
             core::mem::forget(cb);
             core::mem::forget(block);
         }
@@ -139,6 +134,8 @@ macro_rules! flush_sym {
     ($name:ident, $blocks:expr, $short:expr) => {
         #[kani::proof]
         #[kani::stub(std::io::Error::is_interrupted, crate::verif_models::fs::stub_not_interrupted)]
+        #[kani::stub(<std::io::Error as std::error::Error>::source, crate::verif_models::fs::stub_no_source)]
+        #[kani::stub(<std::io::Error as std::error::Error>::cause, crate::verif_models::fs::stub_no_cause)]
         #[kani::stub(crate::common::utils::arr_to_hex, stub_hex)]
         #[kani::unwind(14)]
         fn $name() {
@@ -186,9 +183,9 @@ macro_rules! flush_sym {
         }
     };
 }
-//@ id=C10 tier=quick name=c10_csv_sym_1 timeout=1500 role=flush_before_rename bound=CsvDump,1-block,buffer-4,SYMBOLIC-fault-schedule(any-subset-of-the-first-12-write-calls-fails) fn=CsvDump::on_block,CsvDump::on_complete,BufWriter
+//@ id=C10 tier=thorough name=c10_csv_sym_1 timeout=5400 mem=30 role=flush_before_rename bound=CsvDump,1-block,buffer-4,SYMBOLIC-fault-schedule(any-subset-of-the-first-12-write-calls-fails) fn=CsvDump::on_block,CsvDump::on_complete,BufWriter
 flush_sym!(c10_csv_sym_1, 1, false);
-//@ id=C10 tier=quick name=c10_csv_sym_3 timeout=2400 role=flush_before_rename bound=CsvDump,3-blocks,buffer-4,SYMBOLIC-fault-schedule mem=20
+//@ id=C10 tier=thorough name=c10_csv_sym_3 timeout=7200 role=flush_before_rename bound=CsvDump,3-blocks,buffer-4,SYMBOLIC-fault-schedule mem=30
 flush_sym!(c10_csv_sym_3, 3, false);
 //@ id=C10 tier=thorough name=c10_csv_sym_3_short timeout=5400 role=flush_before_rename bound=CsvDump,3-blocks,buffer-4,SYMBOLIC-faults-and-short-writes mem=24
 flush_sym!(c10_csv_sym_3_short, 3, true);
